@@ -40,9 +40,9 @@ struct ExecData : d1::execution_data { int worker; };
 static int P = 2, cur = 0; static std::vector<Worker> W; static std::deque<Item> stream; static std::vector<Frame> frames;
 static std::vector<d1::task_group_context*> ctx_stack; static std::intptr_t cur_isolation = 0;
 static std::set<d1::task_group_context*> live_ctx; static std::map<d1::task_group_context*, std::exception_ptr> exc;
-static long cache_allocs = 0; static long allocs = 0, steals = 0, mails = 0, executed = 0, cancelled_tasks = 0; static int max_conc = 0;
+static long cache_allocs = 0; static bool (*idle_hook)() = nullptr; static long allocs = 0, steals = 0, mails = 0, executed = 0, cancelled_tasks = 0; static int max_conc = 0;
 Stats stats() { Stats s; s.steals = steals; s.mails = mails; s.executed = executed; s.cancelled = cancelled_tasks; s.outstanding_allocations = allocs; s.cache_allocs = cache_allocs; return s; }
-void init(int p, int reported_concurrency) { P = p; W.assign(p, Worker()); cur = 0; stream.clear(); frames.clear(); ctx_stack.clear(); cur_isolation = 0; live_ctx.clear(); exc.clear(); allocs = steals = mails = executed = cancelled_tasks = 0; cache_allocs = 0; max_conc = reported_concurrency > 0 ? reported_concurrency : p; }
+void init(int p, int reported_concurrency) { P = p; W.assign(p, Worker()); cur = 0; stream.clear(); frames.clear(); ctx_stack.clear(); cur_isolation = 0; live_ctx.clear(); exc.clear(); allocs = steals = mails = executed = cancelled_tasks = 0; cache_allocs = 0; idle_hook = nullptr; max_conc = reported_concurrency > 0 ? reported_concurrency : p; }
 int current_worker() { return cur; }
 void finish() { for (auto& w : W) if (!w.dq.empty()) vf_fail("vtbb: %zu spawned tasks were never executed (wait returned while work was pending)", w.dq.size()); if (!stream.empty()) vf_fail("vtbb: %zu enqueued tasks were never executed", stream.size()); if (allocs != 0) vf_fail("vtbb: %ld task objects were not deallocated exactly once", allocs); }
 
@@ -99,10 +99,11 @@ static bool step(bool only_others = false) {
     run_task(it, m.w); return true;
 }
 bool interleave() { if (vf_choose(2) == 0) return false; return step(true); }
+void set_idle_hook(bool (*h)()) { idle_hook = h; }
 int run_others(int n) { int k = 0; while (k < n && step(true)) k++; return k; }
 static void wait_loop(d1::wait_context& wc) {
     frames.push_back({cur, cur_isolation});
-    while (wc.m_ref_count.load(std::memory_order_acquire) > 0) if (!step()) vf_fail("vtbb: a wait can never return: its reference count is %lu but no task is left to run", (unsigned long)wc.m_ref_count.load());
+    while (wc.m_ref_count.load(std::memory_order_acquire) > 0) if (!step() && !(idle_hook && idle_hook())) vf_fail("vtbb: a wait can never return: its reference count is %lu but no task is left to run", (unsigned long)wc.m_ref_count.load());
     frames.pop_back();
 }
 static void rethrow(d1::task_group_context& c) { auto it = exc.find(&c); if (it != exc.end() && it->second) { std::exception_ptr e = it->second; std::rethrow_exception(e); } }
